@@ -488,6 +488,43 @@ pub struct Runner {
     /// saved failing cases (committed under regress/<ID>/): (check, case, path); re-judged first
     pub regress: Vec<(String, Value, String)>,
     pub started: Instant,
+    /// crash / hang triage (used by the checks for which a crash or hang of the code under test IS a violation):
+    /// random stages journal the tape of the case each worker is about to judge, so that after an abort (stack
+    /// overflow, SIGSEGV, ...) or a stall the culprit can be identified and re-run in a child process
+    pub journal: bool,
+    /// triage mode: do not run the stages; re-run the journalled cases of each stage in child processes
+    pub triage: bool,
+    /// child of a triage run: judge only this tape in this stage, in-process
+    pub replay_tape: Option<(String, Vec<u32>)>,
+}
+
+/// Seconds without progress of one worker after which a stage is declared stalled (env VERIF_HANG_SECS).
+pub fn hang_secs() -> u64 {
+    std::env::var("VERIF_HANG_SECS").ok().and_then(|s| s.parse().ok()).unwrap_or(120)
+}
+
+pub fn journal_path(verif_dir: &str, prop: &str, profile: &str, stage: &str, shard: usize) -> String {
+    format!("{}/replays/.journal-{}-{}-{}-{}.bin", verif_dir, prop, profile, stage.replace('.', "_"), shard)
+}
+
+fn tape_bytes(t: &[u32]) -> Vec<u8> {
+    let mut b = Vec::with_capacity(4 + 4 * t.len());
+    b.extend_from_slice(&(t.len() as u32).to_le_bytes());
+    for c in t {
+        b.extend_from_slice(&c.to_le_bytes());
+    }
+    b
+}
+
+fn tape_from_bytes(b: &[u8]) -> Option<Vec<u32>> {
+    if b.len() < 4 {
+        return None;
+    }
+    let n = u32::from_le_bytes([b[0], b[1], b[2], b[3]]) as usize;
+    if n == 0 || b.len() < 4 + 4 * n {
+        return None;
+    }
+    Some((0..n).map(|i| u32::from_le_bytes([b[4 + 4 * i], b[5 + 4 * i], b[6 + 4 * i], b[7 + 4 * i]])).collect())
 }
 
 fn mix(seed: u64, prop: &str, stage: &str, shard: u64) -> u64 {
@@ -532,6 +569,9 @@ impl Runner {
             only: None,
             regress: Vec::new(),
             started: Instant::now(),
+            journal: false,
+            triage: false,
+            replay_tape: None,
         }
     }
 
@@ -553,6 +593,9 @@ impl Runner {
     }
 
     fn skip(&self, name: &str) -> bool {
+        if let Some((stage, _)) = &self.replay_tape {
+            return stage != name;
+        }
         if let Some((check, _)) = &self.replay {
             return check != name;
         }
@@ -596,11 +639,47 @@ impl Runner {
         }
         let t0 = Instant::now();
         let mut st = Stats::default();
+        let jpath = format!("{}/replays/.journal-{}-{}-{}-regress.txt", self.verif_dir, self.prop, self.profile, name.replace('.', "_"));
+        if self.journal {
+            let _ = std::fs::create_dir_all(format!("{}/replays", self.verif_dir));
+        }
         for (v, path) in mine {
             match C::from_json(&v) {
                 None => self.inconclusive.push(format!("regression file {} does not decode as a case of check {}", path, name)),
                 Some(c) => {
-                    let r = match guard(|| judge(&c, &mut st)) {
+                    let r = if self.journal {
+                        // crash / stall protection: note which saved case is being judged, and judge it under a deadline
+                        let _ = std::fs::write(&jpath, &path);
+                        let limit = hang_secs();
+                        let (tx, rx) = std::sync::mpsc::channel();
+                        let prop = self.prop;
+                        let out = std::thread::scope(|s| {
+                            let c2 = c.clone(); // CaseIo: Clone + Send
+                            s.spawn(move || {
+                                let mut local = Stats::default();
+                                let r = guard(|| judge(&c2, &mut local));
+                                let _ = tx.send((r, local));
+                            });
+                            match rx.recv_timeout(std::time::Duration::from_secs(limit)) {
+                                Ok(x) => x,
+                                Err(_) => {
+                                    // the worker is inside an endless loop and cannot be stopped: report and leave
+                                    println!("VIOLATION property={} replay={}", prop, path);
+                                    println!("  check={} sig=hang:{}", name, name);
+                                    println!("  expected: returns normally");
+                                    println!("  observed: no result after {} s on a saved case", limit);
+                                    std::process::exit(1);
+                                }
+                            }
+                        });
+                        let _ = std::fs::remove_file(&jpath);
+                        let (r, local) = out;
+                        st.merge(local);
+                        r
+                    } else {
+                        guard(|| judge(&c, &mut st))
+                    };
+                    let r = match r {
                         Ok(r) => r,
                         Err(p) => Err(Fail::new("harness-panic", "", name, "judge returns", format!("judge panicked: {}", p))),
                     };
@@ -667,6 +746,130 @@ impl Runner {
         self.violations.push(Violation { stage: name.to_string(), fail: f, case: c.to_json(), replay_path: path });
     }
 
+    /// Triage after an abnormal end (abort, stall): every journal left behind by a worker of this stage holds the tape
+    /// of the case that worker was judging. Each is re-run in a child process; a child that dies on a signal or stalls
+    /// identifies a case on which the code under test crashes or hangs.
+    fn triage_stage<C: CaseIo>(&mut self, name: &'static str, gen: &(dyn Fn(&mut Tape) -> C + Sync)) {
+        let exe = match std::env::current_exe() {
+            Ok(e) => e,
+            Err(_) => return,
+        };
+        // a saved (regress) case was being judged when the run ended: replay that file in a child
+        let rj = format!("{}/replays/.journal-{}-{}-{}-regress.txt", self.verif_dir, self.prop, self.profile, name.replace('.', "_"));
+        if let Ok(path) = std::fs::read_to_string(&rj) {
+            let child = std::process::Command::new(&exe)
+                .arg(self.prop)
+                .arg("--replay")
+                .arg(path.trim())
+                .env("VERIF_DIR", &self.verif_dir)
+                .env("VERIF_REPLAY_CHILD", "1")
+                .stdout(std::process::Stdio::null())
+                .stderr(std::process::Stdio::null())
+                .spawn();
+            if let Ok(mut child) = child {
+                let t0 = Instant::now();
+                let limit = hang_secs();
+                let outcome: Option<&'static str> = loop {
+                    match child.try_wait() {
+                        Ok(Some(status)) => break match status.code() { Some(0) | Some(1) | Some(2) => None, _ => Some("crash") },
+                        Ok(None) => {
+                            if t0.elapsed().as_secs() >= limit {
+                                let _ = child.kill();
+                                let _ = child.wait();
+                                break Some("hang");
+                            }
+                            std::thread::sleep(std::time::Duration::from_millis(50));
+                        }
+                        Err(_) => break None,
+                    }
+                };
+                if let Some(kind) = outcome {
+                    let fail = Fail::new(format!("{}:{}", kind, name), "", "a saved case, in a child process", "returns normally", if kind == "crash" { "the process died".to_string() } else { format!("no result after {} s", limit) });
+                    if !self.is_known(&fail.sig) {
+                        self.violations.push(Violation { stage: name.to_string(), fail, case: json!({"saved_case": path.trim()}), replay_path: path.trim().to_string() });
+                    }
+                }
+            }
+            let _ = std::fs::remove_file(&rj);
+        }
+        for shard in 0..THREADS {
+            let jpath = journal_path(&self.verif_dir, self.prop, &self.profile, name, shard);
+            if !self.violations.is_empty() {
+                // one reproduced crash / stall is enough; the other workers most likely met the same defect
+                let _ = std::fs::remove_file(&jpath);
+                continue;
+            }
+            let tape = match std::fs::read(&jpath).ok().and_then(|b| tape_from_bytes(&b)) {
+                Some(t) => t,
+                None => {
+                    let _ = std::fs::remove_file(&jpath);
+                    continue;
+                }
+            };
+            let child = std::process::Command::new(&exe)
+                .arg(self.prop)
+                .arg("--tier")
+                .arg(if self.quick() { "quick" } else { "thorough" })
+                .arg("--replay-tape")
+                .arg(&jpath)
+                .arg("--stage")
+                .arg(name)
+                .arg("--no-evidence")
+                .env("VERIF_DIR", &self.verif_dir)
+                .stdout(std::process::Stdio::null())
+                .stderr(std::process::Stdio::null())
+                .spawn();
+            let mut child = match child {
+                Ok(c) => c,
+                Err(_) => continue,
+            };
+            let t0 = Instant::now();
+            let limit = hang_secs();
+            let outcome: Option<&'static str> = loop {
+                match child.try_wait() {
+                    Ok(Some(status)) => {
+                        break match status.code() {
+                            Some(0) | Some(1) | Some(2) => None, // returned normally (an ordinary violation is reported by the ordinary run)
+                            _ => Some("crash"),
+                        };
+                    }
+                    Ok(None) => {
+                        if t0.elapsed().as_secs() >= limit {
+                            let _ = child.kill();
+                            let _ = child.wait();
+                            break Some("hang");
+                        }
+                        std::thread::sleep(std::time::Duration::from_millis(50));
+                    }
+                    Err(_) => break None,
+                }
+            };
+            self.stats.evals += 1;
+            if let Some(kind) = outcome {
+                let c = gen(&mut Tape::new(&tape));
+                let fail = Fail::new(
+                    format!("{}:{}", kind, name),
+                    "",
+                    "the calls this check makes on the generated case, in a child process",
+                    "returns normally",
+                    if kind == "crash" { "the process died (stack overflow, abort or fatal signal)".to_string() } else { format!("no result after {} s", limit) },
+                );
+                let dir = format!("{}/replays", self.verif_dir);
+                let body = json!({
+                    "property": self.prop, "check": name, "sig": fail.sig, "entry_point": fail.entry,
+                    "expected": fail.expected, "observed": fail.observed, "seed": self.seed, "found_by": "crash/stall triage", "case": c.to_json(),
+                });
+                let digest = hash_str(&c.to_json().to_string());
+                let path = format!("{}/{}-{}-{}-{:016x}.json", dir, self.prop, name.replace('.', "_"), kind, digest);
+                let _ = std::fs::write(&path, serde_json::to_string_pretty(&body).unwrap());
+                if !self.is_known(&fail.sig) {
+                    self.violations.push(Violation { stage: name.to_string(), fail, case: c.to_json(), replay_path: path });
+                }
+            }
+            let _ = std::fs::remove_file(&jpath);
+        }
+    }
+
     /// Random stage: `cases` tapes of `tape_len` cells drawn by proptest, split over threads.
     pub fn random<C: CaseIo>(
         &mut self,
@@ -682,6 +885,19 @@ impl Runner {
         if self.replay.is_some() {
             return self.do_replay(name, judge);
         }
+        if let Some((_, tape)) = self.replay_tape.clone() {
+            // child of a triage run: this one case, in-process (a crash or stall here is what the parent looks for)
+            self.replay_hit = true;
+            let c = gen(&mut Tape::new(&tape));
+            let mut st = Stats::default();
+            if let Ok(Err(f)) = guard(|| judge(&c, &mut st)) {
+                self.violations.push(Violation { stage: name.to_string(), fail: f, case: c.to_json(), replay_path: String::new() });
+            }
+            return;
+        }
+        if self.triage {
+            return self.triage_stage(name, gen);
+        }
         self.run_regress(name, judge);
         let t0 = Instant::now();
         let shards = THREADS.min(cases.max(1) as usize).max(1);
@@ -690,10 +906,43 @@ impl Runner {
         let results: Mutex<Vec<(usize, Stats, Option<(C, Fail)>)>> = Mutex::new(Vec::new());
         let known: Vec<String> = self.known.iter().filter(|k| k.property == self.prop).map(|k| k.sig.clone()).collect();
         let (seed, prop) = (self.seed, self.prop);
+        let journal = self.journal;
+        let (verif_dir, profile) = (self.verif_dir.clone(), self.profile.clone());
+        if journal {
+            let _ = std::fs::create_dir_all(format!("{}/replays", verif_dir));
+        }
+        let progress: Vec<std::sync::atomic::AtomicU64> = (0..shards).map(|_| std::sync::atomic::AtomicU64::new(0)).collect();
+        let finished = std::sync::atomic::AtomicUsize::new(0);
         std::thread::scope(|s| {
+            if journal {
+                // stall monitor: a worker that judges no case for hang_secs() has met an endless loop in the code under test
+                let (progress, finished) = (&progress, &finished);
+                s.spawn(move || {
+                    let limit = hang_secs();
+                    let mut last: Vec<(u64, Instant)> = progress.iter().map(|p| (p.load(Ordering::Relaxed), Instant::now())).collect();
+                    while finished.load(Ordering::Relaxed) < shards {
+                        std::thread::sleep(std::time::Duration::from_millis(500));
+                        for (i, p) in progress.iter().enumerate() {
+                            let v = p.load(Ordering::Relaxed);
+                            if v == u64::MAX {
+                                continue; // this worker is done
+                            }
+                            if v != last[i].0 {
+                                last[i] = (v, Instant::now());
+                            } else if last[i].1.elapsed().as_secs() >= limit {
+                                eprintln!("STALL in stage {}: worker {} has been inside one case for {} s; run with --triage to identify the case", name, i, limit);
+                                std::process::exit(3);
+                            }
+                        }
+                    }
+                });
+            }
             for shard in 0..shards {
                 let (stop, results, known) = (&stop, &results, &known);
+                let (progress, finished) = (&progress, &finished);
+                let jpath = journal_path(&verif_dir, prop, &profile, name, shard);
                 s.spawn(move || {
+                    let jfile = if journal { std::fs::OpenOptions::new().create(true).write(true).truncate(true).open(&jpath).ok() } else { None };
                     let st = std::cell::RefCell::new(Stats::default());
                     let mut found: Option<(C, Fail)> = None;
                     let cfg = Config {
@@ -715,6 +964,11 @@ impl Runner {
                         let mut last_fail = last_fail.borrow_mut();
                         if stop.load(Ordering::Relaxed) && !st.frozen {
                             return Ok(());
+                        }
+                        if let Some(f) = &jfile {
+                            use std::os::unix::fs::FileExt;
+                            let _ = f.write_all_at(&tape_bytes(&tape), 0);
+                            progress[shard].fetch_add(1, Ordering::Relaxed);
                         }
                         let c = gen(&mut Tape::new(&tape));
                         let r = match guard(|| judge(&c, st)) {
@@ -755,6 +1009,13 @@ impl Runner {
                     }
                     let mut st = st.into_inner();
                     st.frozen = false;
+                    if jfile.is_some() {
+                        // finished cleanly: nothing to triage for this worker
+                        drop(jfile);
+                        let _ = std::fs::remove_file(&jpath);
+                        progress[shard].store(u64::MAX, Ordering::Relaxed);
+                    }
+                    finished.fetch_add(1, Ordering::Relaxed);
                     results.lock().unwrap().push((shard, st, found));
                 });
             }
@@ -790,6 +1051,9 @@ impl Runner {
         }
         if self.replay.is_some() {
             return self.do_replay(name, judge);
+        }
+        if self.triage || self.replay_tape.is_some() {
+            return; // enumeration stages keep no journal
         }
         self.run_regress(name, judge);
         let t0 = Instant::now();
